@@ -227,7 +227,8 @@ func TestAlphabet(t *testing.T) {
 // (b) numeric form
 
 var numRe = regexp.MustCompile(`^([-+]?)([0-9]+)(?:\.([0-9]+))?(?:(?:[eE]([-+][0-9]+))|(?:\*(?:10)?\^([-+]?[0-9]+)))?$`)
-var startsLikeNumber = regexp.MustCompile(`^[-+]?[0-9]`)
+// (several leading signs in front of a digit are the manual's own example of a malformed number)
+var startsLikeNumber = regexp.MustCompile(`^[-+]*[0-9]`)
 
 // refNumber - correctly rounded double of the decimal, via exact rational arithmetic
 func refNumber(s string) (float64, bool) {
